@@ -217,9 +217,16 @@ class FState:
     def prepare(self, sigma, modes):
         """Replace `modes` (ordered) by the state sigma (dm on those modes), uncorrelated with the rest."""
         rest = [m for m in range(self.n) if m not in modes]
-        rr = self.reduced(rest) if rest else np.array([[self.trace()]], dtype=complex)
+        if not rest:
+            # preparing the whole register discards the previous state entirely, including the norm it had lost
+            loc, _ = _offsets(tuple(modes), self.n, self.c)
+            new = np.zeros_like(self.rho)
+            new[np.ix_(loc, loc)] = sigma
+            self.rho = new
+            return self
+        rr = self.reduced(rest)
         loc, _ = _offsets(tuple(modes), self.n, self.c)
-        rloc, _ = _offsets(tuple(rest), self.n, self.c) if rest else (np.array([0]), None)
+        rloc, _ = _offsets(tuple(rest), self.n, self.c)
         new = np.zeros_like(self.rho)
         # index of (rest basis b, local basis a) = rloc[b] + loc[a]
         full = (rloc[:, None] + loc[None, :]).ravel()
